@@ -60,7 +60,7 @@ def run(ck):
     except Exception as e:
         ck.machinery_error("translator gen_hash failed: %r" % (e,)); return
     if not ck.build_driver(): return
-    if not ck.prove():
+    if not ck.prove(["ZixModel.Properties.C03", "ZixModel.Properties.C03History"]):
         ck.report_proof_failure("theorems about the hash-table model / regenerated constants no longer build")
     exe = ck.cc("h_c03", ["h_c03.c", os.path.join(REPO, "src/allocator.c")])
     if not exe: return
